@@ -3139,6 +3139,14 @@ class Mailbox:
         # Inbox is handled specially.
         #
         if mbox.name.lower() != "inbox":
+            # A mailbox can not be moved below itself (the folder rename
+            # fails, after the names in the db have been changed.)
+            #
+            if new_name.startswith(mbox.name + "/"):
+                raise InvalidMailbox(
+                    f"Can not rename '{mbox.name}' to its own inferior "
+                    f"'{new_name}'"
+                )
             await _helper_rename_folder(mbox, new_name)
         else:
             await _helper_rename_inbox(mbox, new_name)
